@@ -74,6 +74,18 @@ HOME = {
     ("src/qvector/rs_qvector.rs", "RSSupportPlain"): "src/qvector/rs_qvector/rs_support_plain.rs",
     ("src/qvector/rs_qvector.rs", "select_in_word_u128"): "src/utils/mod.rs",
     ("src/quadwt/mod.rs", "RSQVector"): "src/qvector/rs_qvector.rs",
+    ("src/quadwt/mod.rs", "WTIterator"): "src/lib.rs",
+    ("src/quadwt/huffqwt.rs", "WTIterator"): "src/lib.rs",
+    ("src/binwt/mod.rs", "WTIterator"): "src/lib.rs",
+    ("src/lib.rs", "QWaveletTree"): "src/quadwt/mod.rs",
+    ("src/lib.rs", "HuffQWaveletTree"): "src/quadwt/huffqwt.rs",
+    ("src/lib.rs", "WaveletTree"): "src/binwt/mod.rs",
+    ("src/lib.rs", "RSWide"): "src/bitvector/rs_wide.rs",
+    ("src/lib.rs", "BitVector"): "src/bitvector/mod.rs",
+    ("src/lib.rs", "PrefixCode"): "src/quadwt/huffqwt.rs",
+    ("src/lib.rs", "RSQVector"): "src/qvector/rs_qvector.rs",
+    ("src/lib.rs", "RSSupportPlain"): "src/qvector/rs_qvector/rs_support_plain.rs",
+    ("src/lib.rs", "QVector"): "src/qvector/mod.rs",
     ("src/quadwt/mod.rs", "stable_partition_of_4"): "src/utils/mod.rs",
     ("src/quadwt/mod.rs", "msb"): "src/utils/mod.rs",
     ("src/quadwt/mod.rs", "QVector"): "src/qvector/mod.rs",
@@ -335,6 +347,32 @@ TARGETS = list(GL.TARGETS) + [
     ("src/bitvector/mod.rs", "BitVectorMut", "zeros", "g_bvm_zeros", {"BIT": False}),
     ("src/bitvector/mod.rs", "BitVectorMut", "zeros_with_pos", "g_bvm_zeros_with_pos", {"BIT": False}),
     ("src/bitvector/mod.rs", "BitVectorMut", "iter", "g_bvm_iter", {}),
+    # ---- group titers: the iterators over quad vectors and wavelet trees (the container held by value)
+    ("src/qvector/mod.rs", "QVectorIterator", "Iterator::next", "g_qvit_next", {"QV": "QVector", "Item": "u8"}),
+    ("src/lib.rs", "WTIterator", "Iterator::next", "g_qwtit256_next", {"T": "@T", "Item": "@T", "Q": "QWaveletTree", "RS": "RSQVector", "S": "RSSupportPlain", "B_SIZE": 256}),
+    ("src/lib.rs", "WTIterator", "DoubleEndedIterator::next_back", "g_qwtit256_next_back", {"T": "@T", "Item": "@T", "Q": "QWaveletTree", "RS": "RSQVector", "S": "RSSupportPlain", "B_SIZE": 256}),
+    ("src/lib.rs", "WTIterator", "ExactSizeIterator::len", "g_qwtit256_len", {"T": "@T", "Item": "@T", "Q": "QWaveletTree", "RS": "RSQVector", "S": "RSSupportPlain", "B_SIZE": 256}),
+    ("src/lib.rs", "WTIterator", "Iterator::next", "g_qwtit512_next", {"T": "@T", "Item": "@T", "Q": "QWaveletTree", "RS": "RSQVector", "S": "RSSupportPlain", "B_SIZE": 512}),
+    ("src/lib.rs", "WTIterator", "DoubleEndedIterator::next_back", "g_qwtit512_next_back", {"T": "@T", "Item": "@T", "Q": "QWaveletTree", "RS": "RSQVector", "S": "RSSupportPlain", "B_SIZE": 512}),
+    ("src/lib.rs", "WTIterator", "ExactSizeIterator::len", "g_qwtit512_len", {"T": "@T", "Item": "@T", "Q": "QWaveletTree", "RS": "RSQVector", "S": "RSSupportPlain", "B_SIZE": 512}),
+    ("src/lib.rs", "WTIterator", "Iterator::next", "g_hqwtit256_next", {"T": "@T", "Item": "@T", "Q": "HuffQWaveletTree", "RS": "RSQVector", "S": "RSSupportPlain", "B_SIZE": 256}),
+    ("src/lib.rs", "WTIterator", "DoubleEndedIterator::next_back", "g_hqwtit256_next_back", {"T": "@T", "Item": "@T", "Q": "HuffQWaveletTree", "RS": "RSQVector", "S": "RSSupportPlain", "B_SIZE": 256}),
+    ("src/lib.rs", "WTIterator", "ExactSizeIterator::len", "g_hqwtit256_len", {"T": "@T", "Item": "@T", "Q": "HuffQWaveletTree", "RS": "RSQVector", "S": "RSSupportPlain", "B_SIZE": 256}),
+    ("src/lib.rs", "WTIterator", "Iterator::next", "g_hqwtit512_next", {"T": "@T", "Item": "@T", "Q": "HuffQWaveletTree", "RS": "RSQVector", "S": "RSSupportPlain", "B_SIZE": 512}),
+    ("src/lib.rs", "WTIterator", "DoubleEndedIterator::next_back", "g_hqwtit512_next_back", {"T": "@T", "Item": "@T", "Q": "HuffQWaveletTree", "RS": "RSQVector", "S": "RSSupportPlain", "B_SIZE": 512}),
+    ("src/lib.rs", "WTIterator", "ExactSizeIterator::len", "g_hqwtit512_len", {"T": "@T", "Item": "@T", "Q": "HuffQWaveletTree", "RS": "RSQVector", "S": "RSSupportPlain", "B_SIZE": 512}),
+    ("src/lib.rs", "WTIterator", "Iterator::next", "g_wtit_next", {"T": "@T", "Item": "@T", "Q": "WaveletTree", "BRS": "RSWide", "COMPRESSED": False}),
+    ("src/lib.rs", "WTIterator", "DoubleEndedIterator::next_back", "g_wtit_next_back", {"T": "@T", "Item": "@T", "Q": "WaveletTree", "BRS": "RSWide", "COMPRESSED": False}),
+    ("src/lib.rs", "WTIterator", "ExactSizeIterator::len", "g_wtit_len", {"T": "@T", "Item": "@T", "Q": "WaveletTree", "BRS": "RSWide", "COMPRESSED": False}),
+    ("src/lib.rs", "WTIterator", "Iterator::next", "g_hwtit_next", {"T": "@T", "Item": "@T", "Q": "WaveletTree", "BRS": "RSWide", "COMPRESSED": True}),
+    ("src/lib.rs", "WTIterator", "DoubleEndedIterator::next_back", "g_hwtit_next_back", {"T": "@T", "Item": "@T", "Q": "WaveletTree", "BRS": "RSWide", "COMPRESSED": True}),
+    ("src/lib.rs", "WTIterator", "ExactSizeIterator::len", "g_hwtit_len", {"T": "@T", "Item": "@T", "Q": "WaveletTree", "BRS": "RSWide", "COMPRESSED": True}),
+    ("src/quadwt/mod.rs", "QWaveletTree", "iter", "g_qwt256_iter", {"T": "@T", "Q": "QWaveletTree", "RS": "RSQVector", "S": "RSSupportPlain", "B_SIZE": 256, "WITH_PREFETCH_SUPPORT": False}),
+    ("src/quadwt/mod.rs", "QWaveletTree", "iter", "g_qwt512_iter", {"T": "@T", "Q": "QWaveletTree", "RS": "RSQVector", "S": "RSSupportPlain", "B_SIZE": 512, "WITH_PREFETCH_SUPPORT": False}),
+    ("src/quadwt/huffqwt.rs", "HuffQWaveletTree", "iter", "g_hqwt256_iter", {"T": "@T", "Q": "HuffQWaveletTree", "RS": "RSQVector", "S": "RSSupportPlain", "B_SIZE": 256, "WITH_PREFETCH_SUPPORT": False}),
+    ("src/quadwt/huffqwt.rs", "HuffQWaveletTree", "iter", "g_hqwt512_iter", {"T": "@T", "Q": "HuffQWaveletTree", "RS": "RSQVector", "S": "RSSupportPlain", "B_SIZE": 512, "WITH_PREFETCH_SUPPORT": False}),
+    ("src/binwt/mod.rs", "WaveletTree", "iter", "g_wt_iter", {"T": "@T", "Q": "WaveletTree", "BRS": "RSWide", "COMPRESSED": False}),
+    ("src/binwt/mod.rs", "WaveletTree", "iter", "g_hwt_iter", {"T": "@T", "Q": "WaveletTree", "BRS": "RSWide", "COMPRESSED": True}),
     # ---- group wtnew: the plain binary WaveletTree::new
     ("src/binwt/mod.rs", "WaveletTree", "new", "g_wt_new", {"T": "@T", "BRS": "RSWide", "COMPRESSED": False}),
     ("src/binwt/mod.rs", "WaveletTree", "FromIterator::from_iter", "g_wt_from_iter", {"T": "@T", "I": "[@T]", "BRS": "RSWide", "COMPRESSED": False}),
@@ -368,6 +406,7 @@ GROUPS = {
     "wtnew": ("src/binwt/mod.rs", ("WaveletTree@new",)),
     "iters": ("src/bitvector/mod.rs", ("BitVectorBitPositionsIter", "BitVectorIter", "BitVectorIntoIter")),
     "craft": ("src/quadwt/huffqwt.rs", ("@craft",)),
+    "titers": ("src/lib.rs", ("WTIterator", "QVectorIterator")),
     "craft2": ("src/binwt/mod.rs", ("@craft",)),
 }
 # which generated files a group's file must import (T3 leaves and earlier T5 groups)
@@ -384,11 +423,12 @@ GROUP_IMPORTS = {
     "bvm": ["LeavesUtils", "FnsBv"],
     "qvb": ["LeavesLine", "LeavesQV", "FnsQv2"],
     "utils": ["LeavesUtils"],
-    "wtnew": ["LeavesUtils", "FnsUtils", "FnsBv", "FnsBvm", "FnsRsw2"],
+    "wtnew": ["LeavesUtils", "FnsUtils", "FnsBv", "FnsBvm", "FnsRsw2", "FnsWt"],
     "iters": ["LeavesUtils", "FnsBv"],
     "craft": ["LeavesUtils"],
+    "titers": ["LeavesUtils", "FnsQv2", "FnsRsq", "FnsQwt", "FnsHqwt", "FnsBv", "FnsRsw2", "FnsWt"],
     "craft2": ["LeavesUtils"],
-    "qwtnew": ["LeavesUtils", "FnsUtils", "FnsQv2", "FnsQvb", "FnsRss", "FnsRsq"],
+    "qwtnew": ["LeavesUtils", "FnsUtils", "FnsQv2", "FnsQvb", "FnsRss", "FnsRsq", "FnsQwt"],
     "rsq": ["LeavesUtils", "LeavesSB", "LeavesLine", "LeavesQV", "FnsRss", "FnsQv2", "FnsQvb"],
 }
 
@@ -1123,6 +1163,7 @@ class FnT5(FnTranslator):
         p.item_assoc = "Item" in self.tsubst       # `Self::Item` of an iterator impl: the target names it
         _, self.selfkind, self.params, self.ret, self.body = p.fn()
         self.mutparams = list(getattr(p, "mutparams", []))
+        self.body = self.inline_self_aliases(self.body)
         self.ret = self.sub_t(self.ret)
         self.params = [(n, self.sub_t(t)) for n, t in self.params]
         self.rec_params = {}
@@ -1148,9 +1189,13 @@ class FnT5(FnTranslator):
             if self.is_mut:
                 # a `&mut self` method takes every field of the struct and returns their new values (a tuple, in
                 # declaration order, followed by the method's own result if it has one)
+                allp = [(pp, tt) for pp, tt in allp if not (isinstance(tt, tuple) and tt[0] == "opaque")]
                 used = [pp for pp, _ in allp]
             else:
                 self.scan_paths(self.body, used)
+                if self.self_moved(self.body):
+                    # `self` itself is stored in a struct literal: every field of it is part of the value
+                    used = [pp for pp, tt in allp if not (isinstance(tt, tuple) and tt[0] == "opaque")]
             self.paths = [pt for pt in allp if pt[0] in used]
             single = len(unit.struct_fields(owner, self.where)) == 1
             for path, ty in self.paths:
@@ -1168,6 +1213,41 @@ class FnT5(FnTranslator):
                     if is_list(ft) and isinstance(ft[1], tuple) and ft[1][0] == "struct" and not self.is_record(ft[1]):
                         self.elem_nominal["self." + ".".join(pp)] = (ft[1][1], self.struct_unit(ft[1][1]).rel)
                 self.body = self.selfvars(self.body)
+
+    def self_moved(self, x):
+        if isinstance(x, tuple) and x and x[0] == "structlit":
+            if any(fe == ("self",) for _, fe in x[2]):
+                return True
+        if isinstance(x, (tuple, list)):
+            return any(self.self_moved(y) for y in x)
+        return False
+
+    def inline_self_aliases(self, body):
+        """`let x = self.f.as_ref();` (a shared reference to a field that is itself a container): x is read as `self.f`"""
+        if not (isinstance(body, tuple) and body and body[0] == "block"):
+            return body
+        stmts, alias = [], {}
+        for st in body[1]:
+            if st[0] == "let" and isinstance(st[1], str) and st[3] is not None:
+                e = st[3]
+                while e[0] == "ref":
+                    e = e[1]
+                if e[0] == "mcall" and e[2] == "as_ref" and not e[3] and e[1][0] == "field" and e[1][1] == ("self",):
+                    alias[st[1]] = e[1]
+                    continue
+            stmts.append(st)
+        if not alias:
+            return body
+
+        def sub(x):
+            if isinstance(x, tuple) and len(x) == 2 and x[0] == "var" and x[1] in alias:
+                return alias[x[1]]
+            if isinstance(x, tuple):
+                return tuple(sub(y) for y in x)
+            if isinstance(x, list):
+                return [sub(y) for y in x]
+            return x
+        return ("block", sub(stmts), sub(body[2]))
 
     def selfvars(self, e):
         """self.f (a field of the struct, for a `&mut self` method) -> the variable `self.f`"""
@@ -2168,6 +2248,11 @@ class FnT5(FnTranslator):
                     if not all(isinstance(tt, tuple) and tt[0] == "option" for _, tt in mine):
                         self.fail("`None` for the field `%s`" % fname)
                     vals += ["None"] * len(mine)
+                elif fe == ("self",) and self.selfkind and not self.is_mut:
+                    want = [pp for pp, _ in self.model_leaves(("struct", self.owner), self.unit)]
+                    if len(want) != len(mine) or any(pp not in self.path_coq for pp in want):
+                        self.fail("`self` stored in the field `%s`" % fname)
+                    vals += [self.path_coq[pp] for pp in want]
                 elif ent is not None and isinstance(ent[1], tuple) and ent[1][0] in ("recparam", "soalocal"):
                     got = list(ent[1][3].values())
                     if len(got) != len(mine):
@@ -4022,8 +4107,8 @@ From QwtModel Require Import ListX Loops SelTable Words%s.
 BV_GROUP_COQ = {"g_get_bit_slice", "g_get_bits_slice"}     # BitVectorMut::get_bit_slice belongs to the BitVector accessors (group bv)
 
 
-WTNEW_COQ = ("g_wt_new", "g_wt_from_iter", "g_wt_from_vec")
-QWTNEW_COQ = ("g_qwt256_new", "g_qwt512_new", "g_qwt256_from_vec", "g_qwt512_from_vec", "g_qwt256_from_iter", "g_qwt512_from_iter")
+WTNEW_COQ = ("g_wt_new", "g_wt_from_iter", "g_wt_from_vec", "g_wt_iter", "g_hwt_iter")
+QWTNEW_COQ = ("g_qwt256_new", "g_qwt512_new", "g_qwt256_from_vec", "g_qwt512_from_vec", "g_qwt256_from_iter", "g_qwt512_from_iter", "g_qwt256_iter", "g_qwt512_iter")
 
 
 ITER_CTORS = {"g_bv_ones", "g_bv_ones_with_pos", "g_bv_zeros", "g_bv_zeros_with_pos", "g_bv_iter",
@@ -4033,6 +4118,8 @@ ITER_CTORS = {"g_bv_ones", "g_bv_ones_with_pos", "g_bv_zeros", "g_bv_zeros_with_
 def in_group(group, owners_g, owner, coq):
     if coq in ITER_CTORS:
         return group == "iters"
+    if coq == "g_qvit_next":
+        return group == "qvb"
     if group == "craft":
         return coq == "g_craft_wm_codes4"
     if group == "craft2":
